@@ -285,6 +285,7 @@ def run(ctx):
     harvest.reload_reads_rule(ctx, "C15.R11", "Sampler")
     harvest.tmp_keeps_extension_rule(ctx, "C15.R12")
     harvest.csv_options_rule(ctx, "C15.R13")
+    sweep.row_labels_rule(ctx, "C15.R14")
     c04.grow_order_rule(ctx, "C15.R6")
     harvest.failed_save_rule(ctx, "C15.R7")
     prog = ctx.prog
